@@ -31,7 +31,8 @@ import (
 //   directory) with the resolved watched path at that moment (0 = missing) and whether the event is
 //   a Write/Create on it; S = signal received by the consumer at t and the content it then loaded
 //   (content = index of the write that produced it, -1 = unreadable or torn).
-// "skip …" = the machine was too busy to keep the schedule (after 3 attempts).
+// "skip …" = the machine was too busy to keep the schedule (2 attempts): a step ran > 60 ms late, the
+// process was not scheduled for > 120 ms, or the second watcher logged a step's events > 120 ms off.
 
 const (
 	verifC38Quiet    = 1400 * time.Millisecond // silence after the last step
@@ -193,7 +194,27 @@ func verifC38RunOnce(layout string, steps []verifC38Step) (string, bool) {
 	}()
 
 	onTime := true
+
+	// scheduling-latency monitor: a 5 ms sleeper that notices when this process does not get the CPU
+	var maxStall time.Duration
+	wg.Add(1)
+	go func() {
+		defer wg.Done()
+		for {
+			t0 := time.Now()
+			select {
+			case <-time.After(5 * time.Millisecond):
+			case <-stop:
+				return
+			}
+			if d := time.Since(t0) - 5*time.Millisecond; d > maxStall {
+				maxStall = d
+			}
+		}
+	}()
+
 	var done []string
+	var doneAt []int
 	for i, st := range steps {
 		target := start.Add(time.Duration(st.at) * time.Millisecond)
 		if d := time.Until(target); d > 0 {
@@ -247,6 +268,9 @@ func verifC38RunOnce(layout string, steps []verifC38Step) (string, bool) {
 			panic("verif: bad step " + st.op)
 		}
 		done = append(done, fmt.Sprintf("P%d,%s", ms(), st.op))
+		if st.op != "q" {
+			doneAt = append(doneAt, ms())
+		}
 	}
 	endOfSteps := time.Now()
 
@@ -275,6 +299,22 @@ func verifC38RunOnce(layout string, steps []verifC38Step) (string, bool) {
 
 	lg.mu.Lock()
 	defer lg.mu.Unlock()
+	if maxStall > 2*verifC38MaxLate {
+		onTime = false
+	}
+	// the second watcher must have logged every step's events when they happened
+	for _, tp := range doneAt {
+		seen := false
+		for _, e := range lg.events {
+			te := verifutil.Atoi(strings.Split(e[1:], ",")[0])
+			if te >= tp-120 && te <= tp+120 {
+				seen = true
+			}
+		}
+		if !seen {
+			onTime = false
+		}
+	}
 	loaded := 0
 	lastLoaded := 0 // the initial load (before the watcher exists) saw v0
 	if len(lg.sigs) > 0 {
@@ -300,7 +340,7 @@ func verifC38RunOnce(layout string, steps []verifC38Step) (string, bool) {
 func verifC38Run(op string) string {
 	layout, steps := verifC38Parse(op)
 	var out string
-	for attempt := 0; attempt < 3; attempt++ {
+	for attempt := 0; attempt < 2; attempt++ {
 		var ok bool
 		out, ok = verifC38RunOnce(layout, steps)
 		if ok {
